@@ -6,6 +6,7 @@ interfere: a *mutator* that writes into returned arrays and a *file modifier*
 that edits hashed files and stamps their mtimes from the virtual clock."""
 import hashlib
 import os
+import contextlib
 import warnings
 
 import numpy as np
@@ -24,7 +25,7 @@ RULE = ("one evaluation = one seeded call history (<= 120 calls, cache capacity 
         "out), dataset-level reads must equal the generator's data whatever was written into earlier results. "
         "non-trivial = >=2 calls and >=1 comparison; distinct = distinct event-log digests")
 STATE_MEASURE = "distinct (function, collision class of the argument pair, cache occupancy >= capacity?, evicted-then-recalled?) tuples"
-PROBES = ["same_bytes_other_dtype", "same_bytes_other_length", "strided_argument", "keyword_vs_positional", "cache_full_eviction",
+PROBES = ["dataset_read_repeated_after_transient_fault", "same_bytes_other_dtype", "same_bytes_other_length", "strided_argument", "keyword_vs_positional", "cache_full_eviction",
           "evicted_then_recalled", "result_mutated", "result_readonly", "file_modified_same_size", "file_modified_other_size",
           "contour_evicted_recomputed", "child_scalar_read", "basin_proxy_read", "h5_scalar_read", "interleaved_functions", "layout_or_shape_variant_2d", "first_access_with_dtype",
           "refilter_same_count", "grandchild_read_after_refilter", "tuple_argument",
@@ -165,15 +166,20 @@ class World:
             po = self.ctx.scratch / "origin.rtdc"
             meta = {"setup": {"software version": "ShapeIn 2.2.2.4", "identifier": "ZMDD-AcC-000001-000000"},
                     "experiment": {"sample": "s", "run index": 1, "date": "2020-01-01", "time": "10:00:00", "run identifier": "run-c17"}}
-            with RTDCWriter(po, mode="reset") as hw:
-                hw.store_metadata(meta)
-                for f, v in self.truth.items():
-                    hw.store_feature(f, v)
+            # (the files are written once per run: after an injected read fault dclab may still hold a handle of a basin's file
+            #  that no close() of the referring dataset reaches, and HDF5 refuses to truncate an open file)
+            first_time = not po.exists()
+            if first_time:
+                with RTDCWriter(po, mode="reset") as hw:
+                    hw.store_metadata(meta)
+                    for f, v in self.truth.items():
+                        hw.store_feature(f, v)
             self.bmap = np.array(sorted(rs.choice(n, size=12, replace=False)), dtype=np.uint64)
             pr = self.ctx.scratch / "referrer.rtdc"
             m2 = {"setup": dict(meta["setup"]), "experiment": dict(meta["experiment"])}
             m2["experiment"]["run identifier"] = "run-c17-ab12"
-            with RTDCWriter(pr, mode="reset") as hw:
+            with (RTDCWriter(pr, mode="reset") if first_time else contextlib.nullcontext()) as hw:
+              if first_time:
                 hw.store_metadata(m2)
                 hw.store_feature("deform", self.truth["deform"][self.bmap.astype(int)])
                 hw.store_basin(basin_name="o", basin_type="file", basin_format="hdf5", basin_locs=[str(po)],
@@ -240,9 +246,15 @@ class World:
         if w in ("dataset", "mixed") and self.ds_objs is not None and r.random() < 0.2:
             # the root selects other events (equally many / any); the hierarchy is refreshed from the youngest
             return {"k": "ds_refilter", "mode": r.choice(["swap", "swap", "random"]), "dseed": r.randrange(1 << 20)}
-        return {"k": "ds_read", "which": r.choice(["file", "child", "child", "grandchild", "grandchild", "basin"]), "feat": r.choice(["deform", "area_um", "bright_avg"]),
-                "how": r.choice(["all", "all", "idx", "slice", "asarray", "asarray_f32", "asarray_int", "summary"]), "i": r.randrange(1 << 16),
-                "fresh": r.random() < 0.3}
+        op = {"k": "ds_read", "which": r.choice(["file", "child", "child", "grandchild", "grandchild", "basin"]), "feat": r.choice(["deform", "area_um", "bright_avg"]),
+              "how": r.choice(["all", "all", "idx", "slice", "asarray", "asarray_f32", "asarray_int", "summary"]), "i": r.randrange(1 << 16),
+              "fresh": r.random() < 0.3}
+        if not self.k.get("dict_root") and r.random() < 0.2:
+            # freshly opened datasets; a first attempt of the access fails at a read of feature data in a file (OSError /
+            # interrupt), then the access is repeated on the same objects
+            op["fresh"] = True
+            op["fail_first"] = {"at": r.choice([0, 0, 0, 1, 1, 2]), "kind": r.choice(["err", "err", "intr"]), "only": r.choice(["/events/", "/events/", "ds.", None])}
+        return op
 
     # ---------------- execution ----------------
     def execute(self, op):
@@ -508,6 +520,27 @@ class World:
                 ctx.probe("basin_proxy_read")
         n = len(truth)
         i = op["i"] % n
+        ff = op.get("fail_first")
+        if ff:
+            if getattr(self, "rseam", None) is None:
+                from dst import faultfs
+                self.rseam = faultfs.ReadFaultSeam().install()
+            self.rseam.arm(ff["at"], ff["kind"], only=ff.get("only"))
+            raised = None
+            try:
+                with warnings.catch_warnings():
+                    warnings.simplefilter("ignore")
+                    np.asarray(ds[f][:])
+            except BaseException as e_:  # noqa: B036 (KeyboardInterrupt is one of the injected kinds)
+                if type(e_).__name__ in ("StopRun", "SystemExit"):
+                    self.rseam.disarm()
+                    raise
+                raised = e_
+            fired = self.rseam.disarm()
+            ctx.log("c", f"first attempt {which} {f}", f"fired={fired} raised={type(raised).__name__ if raised is not None else None}")
+            if fired:
+                ctx.fault("read_" + ff["kind"])
+                ctx.probe("dataset_read_repeated_after_transient_fault")
         with warnings.catch_warnings():
             warnings.simplefilter("ignore")
             with ctx.sut("C17.dataset.read", sig={"which": which}):
